@@ -34,6 +34,13 @@ def base(rng):
         a, b = c['stages']
         ocp.subject_to(b.at_t0(c['x'][b][0]) == a.at_tf(c['x'][a][0]))
     ocp.solver('ipopt', IPOPT)
+    # a stand-alone template from which further stages can be cloned later on
+    from rockit import Stage
+    t = Stage(T=1)
+    tx = t.state(); tu = t.control()
+    t.set_der(tx, -tx + tu); t.add_objective(t.integral(tu ** 2)); t.subject_to(t.at_t0(tx) == 0)
+    t.method(MultipleShooting(N=2, intg='rk'))
+    c['template'] = t
     return c
 
 
@@ -45,7 +52,7 @@ def step(c, rng):
     disc = c['kind'] == 'discrete'
     ops = ['state', 'control', 'variable', 'parameter', 'reg_state', 'reg_param', 'subject_to', 'subject_to_int', 'add_objective', 'clear', 'method', 'set_T', 'set_t0',
            'solver', 'callback', 'set_value', 'set_initial', 'set_initial_u', 'sample', 'sample_int', 'value', 'sampler', 'to_function', 'discrete_system',
-           'jacobian', 'initial_value', 'solve', 'solve', 'save', 'transcribe', 'bad_query', 'bad_edit', 'alg']
+           'jacobian', 'initial_value', 'solve', 'solve', 'save', 'transcribe', 'bad_query', 'bad_edit', 'alg', 'new_stage', 'clone_stage']
     op = rng.choice(ops)
     if op == 'state':
         y = st.state(); c['x'][st].append(y)
@@ -101,6 +108,16 @@ def step(c, rng):
     elif op == 'transcribe': ocp.transcribe()
     elif op == 'bad_query': st.sample(x, grid='nonsense')
     elif op == 'bad_edit': st.set_value(x, 1)
+    elif op == 'new_stage':
+        if c['kind'] == 'two-stage' and len(c['stages']) < 4:
+            s2 = ocp.stage(t0=len(c['stages']), T=1)
+            y = s2.state(); w = s2.control(); q = s2.parameter()
+            s2.set_der(y, -y + w * q); s2.set_value(q, 2); s2.add_objective(s2.integral(w ** 2)); s2.subject_to(s2.at_t0(y) == 1)
+            s2.method(MultipleShooting(N=2, intg='rk'))
+            c['stages'].append(s2); c['x'][s2] = [y]; c['u'][s2] = [w]; c['p'][s2] = [q]; c['v'][s2] = []
+    elif op == 'clone_stage':
+        if c['kind'] == 'two-stage' and len(c['stages']) < 4:
+            ocp.stage(c['template'], t0=len(c['stages']) + 5)
     elif op == 'alg':
         if c['kind'] == 'dae':
             z2 = st.algebraic(); st.add_alg(z2 - 2 * x)
